@@ -35,7 +35,7 @@ func (c18) Meta() fw.Meta {
 		Assumptions: []string{
 			"view reads the wall clock: the run is accepted only when the second did not change across the process (stable second); discarded runs are counted",
 		},
-		Obligations: []string{"view_runs", "view_raw_runs", "view_records_checked", "raw_records_checked", "header_checked", "no_header_checked", "sorted_raw", "unsorted_raw", "special_values_printed", "inf_printed", "stale_lap_in_raw", "degenerate_window", "single_archive_selection", "cross_relation_checked", "non_default_tz_runs", "slots_stamped_ahead_of_clock", "slots_stamped_beyond_2_31", "two_runs_one_textout_file", "files_with_empty_first_slot", "remote_runs_with_concurrent_clients"},
+		Obligations: []string{"view_runs", "view_raw_runs", "view_records_checked", "raw_records_checked", "header_checked", "no_header_checked", "sorted_raw", "unsorted_raw", "special_values_printed", "inf_printed", "stale_lap_in_raw", "degenerate_window", "single_archive_selection", "cross_relation_checked", "non_default_tz_runs", "slots_stamped_ahead_of_clock", "slots_stamped_beyond_2_31", "two_runs_one_textout_file", "files_with_empty_first_slot", "remote_runs_with_concurrent_clients", "runs_with_text_out_on_a_full_device"},
 		Workers:     12,
 	}
 }
@@ -418,6 +418,56 @@ func (c18) Run(c *fw.Ctx) {
 				c.Violationf("text-out-file-incomplete", fw.J{"scenario": sc}, "the -text-out file does not contain the complete output of the second run")
 				return
 			}
+		}
+	}
+	// the text output on a full device: nothing of what view / view-raw "print" can arrive, so neither may report success
+	if c.Index%6 == 4 && noiseBase == "" {
+		for _, cmdName := range []string{"view", "view-raw"} {
+			res := runCLI(c, cmdName, "-src-base", filepath.Dir(path), "-src", "file.wsp", "-archive", strconv.Itoa(sel), "-text-out", "/dev/full")
+			c.Count("runs_with_text_out_on_a_full_device", 1)
+			if cliPanicked(res) {
+				c.Violationf("panic", fw.J{"scenario": sc, "run": res.brief()}, "%s panicked", cmdName)
+				return
+			}
+			if res.Exit == 0 {
+				c.Violationf(cmdName+"-output-lost-silently", fw.J{"scenario": sc, "run": res.brief()}, "%s -text-out /dev/full exited 0: none of its lines can have been written", cmdName)
+				return
+			}
+		}
+	}
+	// an archive that is not the last one has a damaged first slot (its time is not a multiple of the step): view cannot
+	// print that archive's window, so it must not report success while leaving the archive out
+	if c.Index%6 == 1 && noiseBase == "" && len(l.Archs) >= 2 {
+		for ai := 0; ai < len(l.Archs)-1; ai++ {
+			if l.Archs[ai].Step < 2 || raw[ai][0].T == 0 {
+				continue
+			}
+			img := readFileOrNil(path)
+			off := l.Offsets()[ai]
+			t := raw[ai][0].T + 1
+			img[off], img[off+1], img[off+2], img[off+3] = byte(t>>24), byte(t>>16), byte(t>>8), byte(t)
+			dp := filepath.Join(dir, "v", "damaged.wsp")
+			ioutil.WriteFile(dp, img, 0644)
+			res := runCLI(c, "view", "-src-base", filepath.Dir(dp), "-src", "damaged.wsp", "-archive", "-1", "-header=false")
+			c.Count("views_of_a_file_with_a_damaged_inner_archive", 1)
+			if cliPanicked(res) {
+				c.Violationf("panic", fw.J{"scenario": sc, "run": res.brief()}, "view panicked on a damaged archive")
+				return
+			}
+			if res.Exit == 0 {
+				got := 0
+				for _, p := range parseOutput(res.Stdout).Points {
+					if p.Arch == ai {
+						got++
+					}
+				}
+				if got == 0 {
+					c.Violationf("view-omits-an-archive-silently", fw.J{"scenario": sc, "run": res.brief(), "damaged_archive": ai},
+						"archive %d has a damaged first slot; view of all archives exited 0 and printed no line for it", ai)
+					return
+				}
+			}
+			break
 		}
 	}
 	if special && stale {
